@@ -23,7 +23,7 @@ ASSUMPTIONS = [
 
 def plan(tier, seed):
     n = 170 if tier == 'quick' else 3000
-    specs = []
+    specs = [{'world': 'open', 'version': v, 'n': 12 if tier == 'quick' else 150} for v in tables.versions()]
     for v in tables.versions():
         for kind in ('segment', 'field', 'message', 'component'):
             specs.append({'world': kind, 'version': v, 'n': n})
@@ -137,7 +137,59 @@ def run_history(world, rec, L, fault_rate=0.45, ops=None):
     return g.done
 
 
+def run_open(spec, rec):
+    """Z segments and varies-terminated segments keep bookkeeping about the highest field number: refused additions
+    (direct add, parent= constructor, parent setter; other level / version; beyond the populated fields) must not move it"""
+    from hl7apy import core
+    from . import c02
+    v = spec['version']
+    rng = gen.rng_for(spec['seed'], 'c12-open', v)
+    for seg in c02.open_ended_segments(v):
+        rows = tables.segments(v).get(seg)
+        base = rows[-1].num if rows else 0
+        for i in range(spec['n']):
+            level = 1 + i % 2
+            s = core.Segment(seg, version=v, validation_level=level)
+            setattr(s, '%s_%d' % (seg.lower(), base + 1), 'a')
+            setattr(s, '%s_%d' % (seg.lower(), base + 2), 'b')
+            if level == 2 and i % 3 == 0:
+                u = core.Field(version=v, validation_level=level)
+                u.value = 'u'
+                s.add(u)
+            name = '%s_%d' % (seg, base + rng.randint(3, 9))
+            how = ('add', 'ctor', 'parent')[i % 3]
+            mism = ('level', 'version')[(i // 3) % 2]
+            lvl = 3 - level if mism == 'level' else level
+            ver = hist._other_version(v) if mism == 'version' else v
+            before = treeinv.snapshot(s)
+            case = {'world': {'kind': 'open', 'version': v, 'level': level, 'segment': seg}, 'how': how, 'mismatch': mism,
+                    'name': name}
+            rec.evaluation(('open', v, seg, level, how, mism, name))
+            try:
+                if how == 'ctor':
+                    core.Field(name, parent=s, version=ver, validation_level=lvl)
+                else:
+                    f = core.Field(name, version=ver, validation_level=lvl)
+                    if how == 'add':
+                        s.add(f)
+                    else:
+                        f.parent = s
+            except Exception as e:
+                rec.count('operations_raised')
+                rec.count('raised:open-%s' % how)
+                rec.count('guarded_calls_raised')
+                after = treeinv.snapshot(s)
+                if after != before:
+                    rec.violation('state-changed-by-rejected:open-segment-%s:%s' % (how, type(e).__name__), case,
+                                  {'before': before[0].replace('\x00', ' / '), 'after': after[0].replace('\x00', ' / ')})
+            else:
+                rec.count('operations_returned')
+    rec.seen('versions', v)
+
+
 def run_shard(spec, rec):
+    if spec['world'] == 'open':
+        return run_open(spec, rec)
     v = spec['version']
     rng = gen.rng_for(spec['seed'], 'c12', spec['world'], v)
     for i in range(spec['n']):
@@ -155,6 +207,9 @@ def run_shard(spec, rec):
 
 def replay(case, rec):
     d = case['world']
+    if d['kind'] == 'open':
+        run_open({'version': d['version'], 'seed': 0, 'n': 60}, rec)
+        return
     rng = gen.rng_for(0, 'replay')
     w = hist.make_world(d['kind'], d['version'], d['level'], rng, **c09.world_kwargs(d))
     run_history(w, rec, 0, ops=case['ops'])
@@ -162,7 +217,8 @@ def replay(case, rec):
 
 CAUSES = ('f_wrong_class', 'f_wrong_name', 'f_foreign_elem', 'f_level_add', 'f_level_set', 'f_version_add',
           'f_version_set', 'f_card', 'f_badvalue', 'f_del_absent', 'f_delidx_absent', 'f_dtchange', 'f_value_wrongname',
-          'f_children_bad', 'f_settype', 'f_deep_level_set', 'f_deep_version_set')
+          'f_children_bad', 'f_settype', 'f_deep_level_set', 'f_deep_version_set', 'f_parent_ctor_level',
+          'f_parent_ctor_version', 'f_parent_assign_level', 'f_parent_assign_version')
 
 
 def floors(tier, m):
